@@ -156,6 +156,15 @@ KeyShortcut(i, v) ==
   /\ root' = "{\n  @t: " \o ScalarCat[v].text \o "\n}"
   /\ typ' = KeyStrings[i] /\ expect' = "accept"
 
+\* a key shortcut next to a literal key that is spelled like the example of the shortcut's type, in either order: both
+\* are properties of the object (the literal one is required and keeps its own value kind)
+KeyShortcutTwin(i, first) ==
+  /\ stage = "start" /\ fam' = "keyshortcut-twin" /\ stage' = "done" /\ list' = <<>>
+  /\ i \in {1, 4, 7}
+  /\ root' = IF first THEN "{\n  @t: 1,\n  " \o KeyStrings[i] \o ": \"x\"\n}"
+                       ELSE "{\n  " \o KeyStrings[i] \o ": \"x\",\n  @t: 1\n}"
+  /\ typ' = KeyStrings[i] /\ expect' = "unknown"
+
 \* ---- size: n members that all refer to one user type (or carry one rule each), for the sizes at which an
 \* implementation may switch its bookkeeping or meet a limit.  The text is long and regular: the specification gives
 \* shape and size, `root` holds the member pattern with # for the member number, the harness repeats it n times.
@@ -238,6 +247,7 @@ Next == \/ StartEnum
         \/ \E i \in 1..(Len(TypeVocab) + 1) : ApVocab(i)
         \/ \E i \in 1..Len(EchoTexts), k \in 1..Len(EchoSites) : Echo(i, k)
         \/ \E i \in 1..Len(KeyStrings), v \in {1, 4, 8} : KeyShortcut(i, v)
+        \/ \E i \in 1..Len(KeyStrings), f \in BOOLEAN : KeyShortcutTwin(i, f)
         \/ \E v \in OrValues, i, j \in 1..Len(TypeVocab), fi, fj \in {"name", "set"}, s \in {"root", "prop"}, nf \in BOOLEAN : OrVocab(v, i, j, fi, fj, s, nf)
 Spec == Init /\ [][Next]_vars
 
